@@ -30,7 +30,12 @@ MANIFEST = {
             'signalling, unhanging and binding values at generated logical '
             'times: every waiter resumes exactly once, at the model\'s '
             'instant (never before test-and-signal), with the bound value; '
-            'rebinding is refused.',
+            'rebinding is refused; waiters may be nested one or two routines '
+            'deep inside the routine that is played. rt_restore stage '
+            '(simulated real-time mode): after routines on SystemClock, '
+            'AppClock and TempoClocks have yielded, returned or raised, a '
+            'routine stepped by hand from the main thread runs at the '
+            'caller\'s present and the main thread is the current thread.',
     'note': 'Trusted: the reference state machine (this file) and '
             'vlib/prog_model.py. Re-entrant next() on a running routine is '
             'not generated (no documented behaviour).',
